@@ -357,3 +357,13 @@ Definition scaled_ok (scale : Q) (raw out : word) : bool :=
   | Some a, Some b => Qeq_bool b (a * scale)
   | _, _ => false
   end.
+
+(* ---- prefixes (C14 for bpch): what a cut file may legitimately present ----------------------------- *)
+(* words of one data block / one time block in the encoding: 55 header words + 2 markers + data *)
+Definition tb_wordsZ (tb : list block) : Z := fold_right (fun b a => 57 + lenZ (b_data b) + a) 0 tb.
+(* the first k time blocks only *)
+Definition trunc_times (k : nat) (f : bfile) : bfile :=
+  {| f_ftype := f_ftype f; f_title := f_title f; f_times := firstn k (f_times f) |}.
+(* a single time block holding only the first j tracers of the first time block *)
+Definition first_tracers (j : nat) (f : bfile) : bfile :=
+  {| f_ftype := f_ftype f; f_title := f_title f; f_times := [firstn j (tb0 f)] |}.
